@@ -501,7 +501,7 @@ class Interp:
                 for e, x in zip(t.elts, items): self.assign(e, x, fr)
         elif isinstance(t, ast.Attribute):
             obj = self.ev(t.value, fr)
-            self.setattr(obj, t.attr, v)
+            self.setattr(obj, self.mangle(t.attr, fr), v)
         elif isinstance(t, ast.Subscript):
             obj = self.ev(t.value, fr)
             self.setitem(obj, self.ev_slice(t.slice, fr), v)
@@ -686,8 +686,16 @@ class Interp:
             return z3.Or(*[c if not isinstance(c, bool) else z3.BoolVal(c) for c in cs])
         return self.world.native_contains(container, x, self)
 
+    def mangle(self, attr, fr):
+        "private name mangling of `__x` inside a class body"
+        if attr.startswith('__') and not attr.endswith('__'):
+            f = fr
+            while f is not None:
+                if getattr(f, 'defcls', None) is not None: return '_' + f.defcls.__name__.lstrip('_') + attr
+                f = f.parent
+        return attr
     def ex_Attribute(self, e, fr):
-        return self.getattr(self.ev(e.value, fr), e.attr)
+        return self.getattr(self.ev(e.value, fr), self.mangle(e.attr, fr))
     def getattr(self, obj, name):
         if isinstance(obj, SymVal): return obj.sym_getattr(self, name)
         if isinstance(obj, SuperProxy): return self.world.super_getattr(self, obj, name)
